@@ -461,7 +461,7 @@ def run(ctx):
                 'and at least one by an activation snapshot')
     rng = ctx.rng
     big = ctx.tier == 'thorough' or ctx.escalated
-    total = ctx.budget(4000, 40000)
+    total = ctx.budget(3000, 40000)
     scenarios = list(CATALOGUE) + [gen_case(rng) for _ in range(ctx.budget(12, 120))]
     per = max(8, total // len(scenarios))
     shrunk = [0]
